@@ -807,16 +807,18 @@ def EInv (mon : Bool) (tg : ℕ) (e : EnvAcc α) (cs : List (Call α)) : Prop :=
 
 /-- one env, one step: invariant kept, and the contribution is the specified one -/
 theorem envStep_spec (mon : Bool) (f : α → α) (tg : ℕ) (e : EnvAcc α) (cs : List (Call α)) (o : StepOut α)
-    (h : EInv mon tg e cs)
+    (r : α) (h : EInv mon tg e cs)
+    (hr : mon = false → o.rew = r)
     (hep : mon = true → o.ep = if o.done then
-      some (f (pySum (openSeg cs ++ [o.rew])), (openSeg cs).length + 1) else none) :
-    EInv mon tg (envStep mon tg e o).1 (cs ++ [Call.step o.rew o.done]) ∧
+      some (f (pySum (openSeg cs ++ [r])), (openSeg cs).length + 1) else none) :
+    EInv mon tg (envStep mon tg e o).1 (cs ++ [Call.step r o.done]) ∧
     (envStep mon tg e o).2 =
       (if o.done = true ∧ dones cs < tg then
-        some ((if mon then f else id) (pySum (openSeg cs ++ [o.rew])), (openSeg cs).length + 1) else none) := by
+        some ((if mon then f else id) (pySum (openSeg cs ++ [r])), (openSeg cs).length + 1) else none) := by
   obtain ⟨hc, ha⟩ := h
-  obtain ⟨r, d, ep⟩ := o
-  simp only at hep ⊢
+  obtain ⟨r', d, ep⟩ := o
+  simp only at hep hr ⊢
+  have hr' : mon = false → r' = r := hr
   unfold envStep
   simp only [EInv, dones_snoc]
   by_cases h1 : e.count < tg
@@ -832,6 +834,8 @@ theorem envStep_spec (mon : Bool) (f : α → α) (tg : ℕ) (e : EnvAcc α) (cs
         refine ⟨⟨by omega, by simp⟩, by simp [hlt]⟩
       | false =>
         obtain ⟨a1, a2⟩ := ha rfl h1
+        have := hr' rfl
+        subst this
         simp only [h1, if_true, Bool.false_eq_true, if_false]
         refine ⟨⟨by omega, fun _ _ => by simp [openSeg_snoc_done, pySum_nil]⟩, ?_⟩
         simp [hlt, a1, a2, pySum_snoc]
@@ -839,6 +843,8 @@ theorem envStep_spec (mon : Bool) (f : α → α) (tg : ℕ) (e : EnvAcc α) (cs
       simp only [h1, if_true, Bool.false_eq_true, if_false]
       refine ⟨⟨by omega, fun hm _ => ?_⟩, by simp⟩
       obtain ⟨a1, a2⟩ := ha hm h1
+      have := hr' hm
+      subst this
       simp [openSeg_snoc_open, pySum_snoc, a1, a2]
   · have hge : tg ≤ dones cs := by omega
     simp only [h1, if_false]
@@ -853,7 +859,7 @@ def Sees (mon : Bool) (f : α → α) (n : ℕ) :
   | _, [], [] => True
   | pre, row :: rest, srow :: seen =>
     (∀ i, i < n →
-      (srow.getD i ⟨0, false, none⟩).rew = (row.getD i ⟨0, false, []⟩).rew ∧
+      (mon = false → (srow.getD i ⟨0, false, none⟩).rew = (row.getD i ⟨0, false, []⟩).rew) ∧
       (srow.getD i ⟨0, false, none⟩).done = (row.getD i ⟨0, false, []⟩).done ∧
       (mon = true → (srow.getD i ⟨0, false, none⟩).ep =
         if (row.getD i ⟨0, false, []⟩).done then
@@ -877,7 +883,7 @@ theorem linv_init (mon : Bool) (f : α → α) (n : ℕ) (tg : List ℕ) : LInv 
 theorem linv_rowStep (mon : Bool) (f : α → α) (n : ℕ) (tg : List ℕ) (s : EvalSt α) (pre : List (List (Raw α)))
     (row : List (Raw α)) (srow : List (StepOut α)) (h : LInv mon f n tg s pre)
     (hs : ∀ i, i < n →
-      (srow.getD i ⟨0, false, none⟩).rew = (row.getD i ⟨0, false, []⟩).rew ∧
+      (mon = false → (srow.getD i ⟨0, false, none⟩).rew = (row.getD i ⟨0, false, []⟩).rew) ∧
       (srow.getD i ⟨0, false, none⟩).done = (row.getD i ⟨0, false, []⟩).done ∧
       (mon = true → (srow.getD i ⟨0, false, none⟩).ep =
         if (row.getD i ⟨0, false, []⟩).done then
@@ -897,9 +903,9 @@ theorem linv_rowStep (mon : Bool) (f : α → α) (n : ℕ) (tg : List ℕ) (s :
           (fun p => ((if mon then f else id) p.1, p.2)) := by
     intro i hi
     obtain ⟨e1, e2, e3⟩ := hs i hi
-    have := envStep_spec mon f (tg.getD i 0) _ (colCalls i pre) (srow.getD i ⟨0, false, none⟩) (h1 i hi)
-      (by intro hm; rw [e1, e2]; exact e3 hm)
-    rw [e1, e2] at this
+    have := envStep_spec mon f (tg.getD i 0) _ (colCalls i pre) (srow.getD i ⟨0, false, none⟩)
+      (row.getD i ⟨0, false, []⟩).rew (h1 i hi) e1 (by intro hm; rw [e2]; exact e3 hm)
+    rw [e2] at this
     rw [hcol i]
     refine ⟨this.1, ?_⟩
     rw [this.2]
